@@ -11,6 +11,67 @@ theorem blockSize_ge (szx : Nat) : 16 ≤ blockSize szx := by
 
 theorem BlockOpt.size_pos (b : BlockOpt) : 0 < b.size := Nat.two_pow_pos _
 
+/-- bytes per unit of a block number / of the Block1 cursor: `2^(szx+4)`, and 1024 for BERT -/
+def unit (szx : Nat) : Nat := blockSize (min szx 6)
+
+/-- bytes of one Block1 block cut by `_extract_block`: one block, or (BERT) as many whole KiB as
+the remote's maximum payload size allows -/
+def blk (mp szx : Nat) : Nat := if szx = 7 then 1024 * (mp / 1024) else blockSize szx
+
+theorem BlockOpt.size_unit (b : BlockOpt) : b.size = unit b.szx := rfl
+
+theorem unit_le6 {s : Nat} (h : s ≤ 6) : unit s = blockSize s := by
+  unfold unit; rw [Nat.min_eq_left h]
+
+theorem unit_seven : unit 7 = 1024 := by decide
+
+theorem unit_pos (s : Nat) : 0 < unit s := blockSize_pos _
+
+theorem blk_le6 {mp s : Nat} (h : s ≤ 6) : blk mp s = blockSize s := by
+  unfold blk; rw [if_neg (by omega)]
+
+theorem blk_seven (mp : Nat) : blk mp 7 = 1024 * (mp / 1024) := by
+  unfold blk; rw [if_pos rfl]
+
+/-- the block length is a positive whole number of units (for BERT: when the remote takes at
+least 1 KiB) -/
+theorem blk_spec {mp s : Nat} (h7 : s ≤ 7) (hb : s = 7 → 1024 ≤ mp) :
+    0 < blk mp s ∧ unit s ∣ blk mp s ∧ unit s ≤ blk mp s ∧ BlkLen s (blk mp s) := by
+  by_cases h : s = 7
+  · subst h
+    have hk : 0 < mp / 1024 := Nat.div_pos (hb rfl) (by decide)
+    rw [blk_seven, unit_seven]
+    refine ⟨by omega, Nat.dvd_mul_right _ _, by omega, ?_⟩
+    simp only [BlkLen, ↓reduceIte]
+    exact ⟨by omega, Nat.mul_mod_right _ _⟩
+  · have h6 : s ≤ 6 := by omega
+    rw [blk_le6 h6, unit_le6 h6]
+    refine ⟨blockSize_pos _, Nat.dvd_refl _, Nat.le_refl _, ?_⟩
+    simp only [BlkLen, h, ↓reduceIte]
+
+theorem BlkLen.pos {s n : Nat} (h : BlkLen s n) : 0 < n := by
+  unfold BlkLen at h
+  split at h
+  · exact h.1
+  · rw [h]; exact blockSize_pos _
+
+theorem BlkLen.unit_le {s n : Nat} (h : BlkLen s n) (h7 : s ≤ 7) : unit s ≤ n := by
+  unfold BlkLen at h
+  split at h
+  · rename_i hs; subst hs; rw [unit_seven]; omega
+  · rw [h, unit_le6 (by omega)]; exact Nat.le_refl _
+
+theorem BlkLen.unit_dvd {s n : Nat} (h : BlkLen s n) (h7 : s ≤ 7) : unit s ∣ n := by
+  unfold BlkLen at h
+  split at h
+  · rename_i hs; subst hs; rw [unit_seven]; exact Nat.dvd_of_mod_eq_zero h.2
+  · rw [h, unit_le6 (by omega)]; exact Nat.dvd_refl _
+
+/-- the code's BERT special case of `reduced_to`: capping exponent 7 to 6 keeps the number -/
+theorem BlockOpt.reducedTo_bert (num : Nat) (more : Bool) :
+    (BlockOpt.mk num more 7).reducedTo 6 = ⟨num, more, 6⟩ := by
+  simp [BlockOpt.reducedTo]
+
 theorem BlockOpt.size_eq {b : BlockOpt} (h : b.szx ≤ 6) : b.size = blockSize b.szx := by
   unfold BlockOpt.size blockSize
   rw [Nat.min_eq_left h]
@@ -105,16 +166,21 @@ theorem reduce_offset (t s c : Nat) :
     rw [Nat.mul_assoc, pow_split (by omega)]
   · simp [h]
 
-theorem extract_aux (p : Bytes) (n szx sz : Nat) (h : n * sz < p.length) :
-    (if n * sz ≥ p.length then (none : Option (BlockOpt × Bytes))
+theorem extract_aux (p : Bytes) (n szx st sz : Nat) (h : st < p.length ∨ (st = 0 ∧ p.length = 0)) :
+    (if st ≥ p.length ∧ st > 0 then (none : Option (BlockOpt × Bytes))
      else
-      let stop := if n * sz + sz < p.length then n * sz + sz else p.length
-      some ({ num := n, more := decide (stop < p.length), szx := szx }, (p.take stop).drop (n * sz))) =
-    some ({ num := n, more := decide (n * sz + sz < p.length), szx := szx },
-          (p.drop (n * sz)).take sz) := by
-  have h1 : ¬ (n * sz ≥ p.length) := by omega
+      let stop := if st + sz < p.length then st + sz else p.length
+      some ({ num := n, more := decide (stop < p.length), szx := szx }, (p.take stop).drop st)) =
+    some ({ num := n, more := decide (st + sz < p.length), szx := szx },
+          (p.drop st).take sz) := by
+  have h1 : ¬ (st ≥ p.length ∧ st > 0) := by omega
   simp only [h1, ↓reduceIte]
-  by_cases h2 : n * sz + sz < p.length
+  rcases h with h | ⟨h0, hl⟩
+  case inr =>
+    have hp : p = [] := List.eq_nil_of_length_eq_zero hl
+    subst hp
+    simp
+  by_cases h2 : st + sz < p.length
   · simp only [h2, ↓reduceIte, decide_true]
     rw [List.drop_take]
     congr 3
@@ -124,19 +190,55 @@ theorem extract_aux (p : Bytes) (n szx sz : Nat) (h : n * sz < p.length) :
     rw [List.length_drop]
     omega
 
-/-- `_extract_block` inside the body: the block option and `payload[start:start+size]` -/
-theorem extractBlock_eq {p : Bytes} {n szx : Nat} (h : n * blockSize szx < p.length) :
-    extractBlock p n szx =
-      some ({ num := n, more := decide (n * blockSize szx + blockSize szx < p.length), szx := szx },
-            (p.drop (n * blockSize szx)).take (blockSize szx)) := by
+/-- `_extract_block` inside the body: the block option and `payload[start:start+size]`, the start
+counted in units, the size that of a block (BERT: all the KiB the remote takes) -/
+theorem extractBlock_eq {p : Bytes} {n szx mp : Nat} (h7 : szx ≤ 7)
+    (h : n * unit szx < p.length ∨ (n = 0 ∧ p.length = 0)) :
+    extractBlock p n szx mp =
+      some ({ num := n, more := decide (n * unit szx + blk mp szx < p.length), szx := szx },
+            (p.drop (n * unit szx)).take (blk mp szx)) := by
   unfold extractBlock
-  exact extract_aux p n szx (2 ^ (szx + 4)) h
+  by_cases hs : szx = 7
+  · subst hs
+    simp only [↓reduceIte, blk_seven]
+    rw [unit_seven] at *
+    exact extract_aux p n 7 (n * 1024) _ (by omega)
+  · have h6 : szx ≤ 6 := by omega
+    simp only [hs, ↓reduceIte, blk_le6 h6]
+    rw [unit_le6 h6] at *
+    refine extract_aux p n szx (n * 2 ^ (szx + 4)) (2 ^ (szx + 4)) ?_
+    rcases h with h | ⟨h0, hl⟩
+    · exact Or.inl h
+    · exact Or.inr ⟨by rw [h0, Nat.zero_mul], hl⟩
 
-theorem extractBlock_none {p : Bytes} {n szx : Nat} (h : p.length ≤ n * blockSize szx) :
-    extractBlock p n szx = none := by
-  unfold extractBlock
-  simp only [blockSize] at h
-  simp [h]
+/-- closed form of the size reduction with the BERT step (the fixed code) -/
+theorem reduceB_szx {t s : Nat} (c : Nat) (h7 : s ≤ 7) : (reduceB t s c).1 = min t s := by
+  unfold reduceB
+  by_cases h : s = 7 ∧ t < 7
+  · rw [if_pos h, reduce_szx]; omega
+  · rw [if_neg h, reduce_szx]
+
+/-- **the size reduction keeps the byte offset of the cursor** -- also across the step from BERT
+(exponent 7) to exponent 6, which is no halving: both count KiB (false of the unfixed code, which
+doubled the cursor there) -/
+theorem reduceB_offset {t s : Nat} (c : Nat) (h7 : s ≤ 7) :
+    (reduceB t s c).2 * unit (reduceB t s c).1 = c * unit s := by
+  unfold reduceB
+  by_cases h : s = 7 ∧ t < 7
+  · rw [if_pos h]
+    obtain ⟨hs, ht⟩ := h
+    subst hs
+    have := reduce_offset t 6 c
+    rw [unit_le6 (by rw [reduce_szx]; omega), this, unit_seven]
+    rfl
+  · rw [if_neg h]
+    by_cases hs : s = 7
+    · subst hs
+      have ht : ¬ t < 7 := fun ht => h ⟨rfl, ht⟩
+      rw [reduce_eq, if_neg ht]
+    · have h6 : s ≤ 6 := by omega
+      rw [unit_le6 (by rw [reduce_szx]; omega), unit_le6 h6]
+      exact reduce_offset t s c
 
 -- equations of `step` / `completeBlock2` ----------------------------------------------------
 
@@ -184,11 +286,11 @@ theorem step_b1_some {cfg : Cfg} {st : B1State} {cur : Req} {r : Resp} {a : Bloc
         if a.more || r.code == codeContinue then .done (.error .unexpectedBlock1)
         else completeBlock2 cfg cur r
       else if a.more then
-        enterB1 cfg { szx := (reduce a.szx st.szx (st.cursor + 1)).1,
-                      cursor := (reduce a.szx st.szx (st.cursor + 1)).2 }
+        enterB1 cfg { szx := (reduceB a.szx st.szx (advance st cur)).1,
+                      cursor := (reduceB a.szx st.szx (advance st cur)).2 }
       else if !(isSuccessful r.code) then completeBlock2 cfg cur r
-      else enterB1 cfg { szx := (reduce a.szx st.szx (st.cursor + 1)).1,
-                         cursor := (reduce a.szx st.szx (st.cursor + 1)).2 } := by
+      else enterB1 cfg { szx := (reduceB a.szx st.szx (advance st cur)).1,
+                         cursor := (reduceB a.szx st.szx (advance st cur)).2 } := by
   simp only [step, h]
 
 theorem step_b2_none {cfg : Cfg} {t : Req} {a : Asm} {cur : Req} {r : Resp} (h : r.block2 = none) :
@@ -200,7 +302,7 @@ theorem step_b2_some {cfg : Cfg} {t : Req} {a : Asm} {cur : Req} {r : Resp} {b :
     step cfg (.b2 t a cur) r =
       if szxGrows cur b then .done (.error .unexpectedBlock2)
       else if r.code ≠ a.code then .done (.error .unexpectedBlock2)
-      else if !b.validFor r.payload.length then .done (.error .unexpectedBlock2)
+      else if !b.okFor r.payload.length then .done (.error .unexpectedBlock2)
       else if b.start ≠ a.payload.length then .done (.error .notImplemented)
       else if r.etag ≠ a.etag then .done (.error .resourceChanged)
       else if !b.more then .done (.ok { code := a.code, etag := a.etag, payload := a.payload ++ r.payload })
@@ -217,7 +319,7 @@ theorem completeBlock2_some {cfg : Cfg} {t : Req} {r : Resp} {b : BlockOpt} (h :
       else if szxGrows t b then .done (.error .unexpectedBlock2)
       else if !b.more then .done (.ok (bodyOf r))
       else if b.num ≠ 0 then .done (.error .unexpectedBlock2)
-      else if !b.validFor r.payload.length then .done (.error .unexpectedBlock2)
+      else if !b.okFor r.payload.length then .done (.error .unexpectedBlock2)
       else enterB2 cfg t { code := r.code, etag := r.etag, payload := r.payload, block2 := b } := by
   simp only [completeBlock2, h]
 end Aiocoap.BwClient
